@@ -78,6 +78,7 @@ impl SessionDescription {
         let mut saw_origin = false;
         let mut saw_name = false;
         let mut saw_timing = false;
+        let mut session_direction: Option<Direction> = None;
 
         for (line_no, raw_line) in raw.lines().enumerate() {
             let line = raw_line.trim();
@@ -124,6 +125,11 @@ impl SessionDescription {
                     if let Some(media) = current_media.as_mut() {
                         media.apply_attribute(attr);
                     } else {
+                        // The attribute itself stays in the session section so
+                        // the description prints back the way it was received.
+                        if let Some(direction) = Direction::from_attribute(&attr.key) {
+                            session_direction = Some(direction);
+                        }
                         session.attributes.push(attr);
                     }
                 }
@@ -131,7 +137,14 @@ impl SessionDescription {
                     if let Some(media) = current_media.take() {
                         media_sections.push(media);
                     }
-                    current_media = Some(MediaSection::from_m_line(value)?);
+                    let mut media = MediaSection::from_m_line(value)?;
+                    // RFC 3264 5.1: a direction given as a session attribute is
+                    // the default for every media section; a media-level
+                    // direction attribute (applied later) overrides it.
+                    if let Some(direction) = session_direction {
+                        media.direction = direction;
+                    }
+                    current_media = Some(media);
                 }
                 _ => {
                     // Unhandled prefixes are preserved as session-level attributes.
@@ -1476,6 +1489,26 @@ a=fingerprint:sha-256 AA:BB:CC:EE\r\n";
             err,
             SdpError::Parse("conflicting DTLS fingerprint attributes in SDP".into())
         );
+    }
+
+    #[test]
+    fn session_level_direction_is_default_for_media_sections() {
+        let sdp = "v=0\r\n\
+o=- 1 1 IN IP4 127.0.0.1\r\n\
+s=-\r\n\
+t=0 0\r\n\
+a=sendonly\r\n\
+m=audio 5000 RTP/AVP 8\r\n\
+m=video 5002 RTP/AVP 96\r\n\
+a=inactive\r\n";
+
+        let desc = SessionDescription::parse(SdpType::Offer, sdp).unwrap();
+        assert_eq!(desc.media_sections[0].direction, Direction::SendOnly);
+        assert_eq!(desc.media_sections[1].direction, Direction::Inactive);
+
+        // Printing and parsing again yields the same description.
+        let reparsed = SessionDescription::parse(SdpType::Offer, &desc.to_sdp_string()).unwrap();
+        assert_eq!(reparsed, desc);
     }
 
     /// Helper: build a minimal RtcConfiguration with the given media capabilities.
